@@ -8,8 +8,16 @@
 // One source, three kinds of harness binary (-DC14_PART=):
 //   1  narrow : every 8-bit value / pair, every 16-bit value, 2^16 x boundary grid, all rotation counts [-130,130]
 //   2  wide   : 32/64-bit boundary values (single bits, all-ones-below-bit, +-1 neighbours, limits) x themselves,
-//               the 64 ordered type pairs for cmp_*, in_range, saturate_cast, mixed-type gcd/lcm, templated forms
+//               the template-index forms (set/reset/flip/test_bit<Pos>, ipow<Base>), constant-evaluated popcount
+//   5  pairs  : the 64 ordered type pairs for cmp_*, in_range, saturate_cast, mixed-type gcd/lcm
 //   3  sweep  : seeded random pairs for 32/64 bit (built "fast": -O2 -fsanitize=undefined, no ASan)
+//   4  types  : the builtin types that are NOT one of the eight fixed-width aliases on this platform - `unsigned long
+//               long`, `long long` (same width as uint64_t/int64_t = unsigned long/long, but distinct types: code that
+//               dispatches on is_same sees them differently), `char`, `char8_t`, `char16_t`, `char32_t`, `wchar_t`, and
+//               `bool` for byteswap - for every function of the property that accepts them.  (signed/unsigned char,
+//               short, int, long ARE i8..u64 here and are covered by parts 1-3.)
+// Every argument is read back from a volatile before the call, so the call is never a constant expression and the
+// run-time branch of `if (not is_constant_evaluated())` dispatch is the one executed.
 //
 // Domain = the documented one: gcd/lcm with |m|, |n| and the result representable in the common type; abs(x), x != min;
 // ipow with exponent >= 0 and representable result (exponent additionally <= 255 for the wide types: the function is a
@@ -51,6 +59,8 @@ using i64  = std::int64_t;
 using u64  = std::uint64_t;
 using i128 = __int128;
 using u128 = unsigned __int128;
+using ull  = unsigned long long; // distinct from u64 (= unsigned long) on LP64
+using ll   = long long;          // distinct from i64 (= long) on LP64
 
 template <typename T>
 constexpr auto tname() -> char const*
@@ -64,6 +74,13 @@ constexpr auto tname() -> char const*
     if constexpr (std::is_same_v<T, i64>) { return "i64"; }
     if constexpr (std::is_same_v<T, u64>) { return "u64"; }
     if constexpr (std::is_same_v<T, char>) { return "char"; }
+    if constexpr (std::is_same_v<T, ull> && !std::is_same_v<ull, u64>) { return "ull"; }
+    if constexpr (std::is_same_v<T, ll> && !std::is_same_v<ll, i64>) { return "ll"; }
+    if constexpr (std::is_same_v<T, char8_t>) { return "c8"; }
+    if constexpr (std::is_same_v<T, char16_t>) { return "c16"; }
+    if constexpr (std::is_same_v<T, char32_t>) { return "c32"; }
+    if constexpr (std::is_same_v<T, wchar_t>) { return "wc"; }
+    if constexpr (std::is_same_v<T, bool>) { return "bool"; }
     return "?";
 }
 
@@ -225,6 +242,10 @@ auto check(Fn fn, T a, u64 braw) -> Res
 {
     constexpr int N         = bits_of<T>;
     constexpr bool is_u     = std::is_unsigned_v<T>;
+    // standard integer type: libstdc++'s counterpart accepts it (std oracle used); otherwise only the 128-bit oracle
+    constexpr bool std_int  = std::is_same_v<T, signed char> || std::is_same_v<T, short> || std::is_same_v<T, int> || std::is_same_v<T, long> || std::is_same_v<T, long long> || std::is_same_v<T, unsigned char>
+                          || std::is_same_v<T, unsigned short> || std::is_same_v<T, unsigned> || std::is_same_v<T, unsigned long> || std::is_same_v<T, unsigned long long>;
+    constexpr bool bit_ok   = requires(T v) { etl::popcount(v); }; // the <bit> family shares one concept
     using UT                = std::make_unsigned_t<T>;
     T const b               = static_cast<T>(static_cast<UT>(braw));
     i128 const A            = static_cast<i128>(a);
@@ -241,7 +262,7 @@ auto check(Fn fn, T a, u64 braw) -> Res
     switch (fn) {
     // ------------------------------------------------------------ <bit>, unsigned only
     case F_POPCOUNT:
-        if constexpr (is_u) {
+        if constexpr (is_u && bit_ok) {
             int const r = etl::popcount(a);
             int const x = std::popcount(a);
             if (r != x || r != naive_popcount(ua)) { return fail(call1(), str(r), str(x)); }
@@ -249,7 +270,7 @@ auto check(Fn fn, T a, u64 braw) -> Res
         }
         return SKIP;
     case F_COUNTL_ZERO:
-        if constexpr (is_u) {
+        if constexpr (is_u && bit_ok) {
             int const r = etl::countl_zero(a);
             int x       = 0;
             while (x < N && ((ua >> (N - 1 - x)) & 1U) == 0) { ++x; }
@@ -258,7 +279,7 @@ auto check(Fn fn, T a, u64 braw) -> Res
         }
         return SKIP;
     case F_COUNTL_ONE:
-        if constexpr (is_u) {
+        if constexpr (is_u && bit_ok) {
             int const r = etl::countl_one(a);
             int x       = 0;
             while (x < N && ((ua >> (N - 1 - x)) & 1U) == 1) { ++x; }
@@ -267,7 +288,7 @@ auto check(Fn fn, T a, u64 braw) -> Res
         }
         return SKIP;
     case F_COUNTR_ZERO:
-        if constexpr (is_u) {
+        if constexpr (is_u && bit_ok) {
             int const r = etl::countr_zero(a);
             int x       = 0;
             while (x < N && ((ua >> x) & 1U) == 0) { ++x; }
@@ -276,7 +297,7 @@ auto check(Fn fn, T a, u64 braw) -> Res
         }
         return SKIP;
     case F_COUNTR_ONE:
-        if constexpr (is_u) {
+        if constexpr (is_u && bit_ok) {
             int const r = etl::countr_one(a);
             int x       = 0;
             while (x < N && ((ua >> x) & 1U) == 1) { ++x; }
@@ -285,7 +306,7 @@ auto check(Fn fn, T a, u64 braw) -> Res
         }
         return SKIP;
     case F_BIT_WIDTH:
-        if constexpr (is_u) {
+        if constexpr (is_u && bit_ok) {
             auto const r = etl::bit_width(a);
             int x        = 0;
             while (x < N && (ua >> x) != 0) { ++x; }
@@ -294,7 +315,7 @@ auto check(Fn fn, T a, u64 braw) -> Res
         }
         return SKIP;
     case F_BIT_CEIL:
-        if constexpr (is_u) {
+        if constexpr (is_u && bit_ok) {
             if (ua > (u64{1} << (N - 1))) { return SKIP; } // result not representable: undefined
             T const r = etl::bit_ceil(a);
             u64 x     = 1;
@@ -304,7 +325,7 @@ auto check(Fn fn, T a, u64 braw) -> Res
         }
         return SKIP;
     case F_BIT_FLOOR:
-        if constexpr (is_u) {
+        if constexpr (is_u && bit_ok) {
             T const r = etl::bit_floor(a);
             u64 x     = 0;
             if (ua != 0) {
@@ -316,7 +337,7 @@ auto check(Fn fn, T a, u64 braw) -> Res
         }
         return SKIP;
     case F_HAS_SINGLE_BIT:
-        if constexpr (is_u) {
+        if constexpr (is_u && bit_ok) {
             bool const r = etl::has_single_bit(a);
             bool const x = ua != 0 && (ua & (ua - 1)) == 0;
             if (r != x || r != std::has_single_bit(a)) { return fail(call1(), str(r), str(x)); }
@@ -325,13 +346,31 @@ auto check(Fn fn, T a, u64 braw) -> Res
         return SKIP;
     case F_ROTL:
     case F_ROTR:
-        if constexpr (is_u) {
+        if constexpr (is_u && bit_ok) {
             int const s = static_cast<int>(static_cast<i64>(braw));
             T const r   = fn == F_ROTL ? etl::rotl(a, s) : etl::rotr(a, s);
             T const sx  = fn == F_ROTL ? std::rotl(a, s) : std::rotr(a, s);
             int left    = ((fn == F_ROTL ? s : -s) % N + N) % N; // rotation to the left, taken modulo the width
             u64 const x = left == 0 ? ua : (((ua << left) | (ua >> (N - left))) & mask);
             if (ubits(r) != x || r != sx) { return fail(std::string(FN[fn]) + "(" + tname<T>() + " " + str(a) + ", " + std::to_string(s) + ")", str(r), str(x)); }
+            if (s >= -128 && s <= 127) { // the count passed as other integer types (converted to int by the call)
+                auto const c1 = static_cast<signed char>(s);
+                auto const c2 = static_cast<short>(s);
+                auto const c3 = static_cast<long>(s);
+                auto const c4 = static_cast<long long>(s);
+                T const r1 = fn == F_ROTL ? etl::rotl(a, c1) : etl::rotr(a, c1);
+                T const r2 = fn == F_ROTL ? etl::rotl(a, c2) : etl::rotr(a, c2);
+                T const r3 = fn == F_ROTL ? etl::rotl(a, c3) : etl::rotr(a, c3);
+                T const r4 = fn == F_ROTL ? etl::rotl(a, c4) : etl::rotr(a, c4);
+                if (r1 != r || r2 != r || r3 != r || r4 != r) {
+                    return fail(std::string(FN[fn]) + "(" + tname<T>() + " " + str(a) + ", count " + std::to_string(s) + " passed as signed char/short/long/long long)", str(r1) + "/" + str(r2) + "/" + str(r3) + "/" + str(r4), str(x));
+                }
+                if (s >= 0) {
+                    T const r5 = fn == F_ROTL ? etl::rotl(a, static_cast<unsigned>(s)) : etl::rotr(a, static_cast<unsigned>(s));
+                    T const r6 = fn == F_ROTL ? etl::rotl(a, static_cast<unsigned char>(s)) : etl::rotr(a, static_cast<unsigned char>(s));
+                    if (r5 != r || r6 != r) { return fail(std::string(FN[fn]) + "(" + tname<T>() + " " + str(a) + ", count " + std::to_string(s) + " passed as unsigned/unsigned char)", str(r5) + "/" + str(r6), str(x)); }
+                }
+            }
             return OK;
         }
         return SKIP;
@@ -340,7 +379,7 @@ auto check(Fn fn, T a, u64 braw) -> Res
     case F_RESET_BIT:
     case F_FLIP_BIT:
     case F_TEST_BIT:
-        if constexpr (is_u) {
+        if constexpr (is_u && bit_ok) {
             if (braw >= static_cast<u64>(N)) { return SKIP; }
             T const pos = static_cast<T>(braw);
             u64 const m = u64{1} << braw;
@@ -367,30 +406,34 @@ auto check(Fn fn, T a, u64 braw) -> Res
         }
         return SKIP;
     // ------------------------------------------------------------ every integer type
-    case F_BYTESWAP: {
+    case F_BYTESWAP:
+        if constexpr (requires { etl::byteswap(a); }) {
         T const r = etl::byteswap(a);
         u64 x     = 0;
         for (int i = 0; i < N / 8; ++i) { x |= ((ua >> (8 * i)) & 0xFFU) << (8 * (N / 8 - 1 - i)); }
         if (ubits(r) != x) { return fail(call1(), str(r), str(static_cast<T>(static_cast<UT>(x)))); }
         if (etl::byteswap(r) != a) { return fail("byteswap(byteswap(" + std::string(tname<T>()) + " " + str(a) + "))", str(etl::byteswap(r)), str(a)); }
         return OK;
-    }
+        }
+        return SKIP;
     case F_ABS:
-        if constexpr (!is_u) {
+        if constexpr (!is_u && requires { etl::abs(a); }) {
             if (A == lo<T>()) { return SKIP; }
             auto const r = etl::abs(a);
             if (static_cast<i128>(r) != abs128(A)) { return fail(call1(), str(r), s128(abs128(A))); }
             return OK;
         }
         return SKIP;
-    case F_ILOG2: {
+    case F_ILOG2:
+        if constexpr (requires { etl::ilog2(a); }) {
         if (A <= 0) { return SKIP; }
         T const r = etl::ilog2(a);
         int x     = 0;
         while ((A >> (x + 1)) != 0) { ++x; }
         if (static_cast<i128>(r) != x) { return fail(call1(), str(r), str(x)); }
         return OK;
-    }
+        }
+        return SKIP;
     case F_HTON:
         if constexpr (requires { etl::experimental::net::hton(a); }) {
             namespace net = etl::experimental::net;
@@ -405,48 +448,72 @@ auto check(Fn fn, T a, u64 braw) -> Res
             return OK;
         }
         return SKIP;
-    case F_ADD_SAT: {
-        T const r = etl::add_sat(a, b);
-        T const x = clampT<T>(A + B);
-        if (r != x) { return fail(call2(), str(r), str(x)); }
-        return OK;
-    }
-    case F_DIV_SAT: {
-        if (B == 0) { return SKIP; }
-        T const r = etl::div_sat(a, b);
-        T const x = clampT<T>(A / B);
-        if (r != x) { return fail(call2(), str(r), str(x)); }
-        return OK;
-    }
-    case F_MIDPOINT: {
-        T const r = etl::midpoint(a, b);
-        i128 x    = A + (B - A) / 2; // half the difference, truncated: rounds towards a
-        if (static_cast<i128>(r) != x || r != std::midpoint(a, b)) { return fail(call2(), str(r), s128(x)); }
-        return OK;
-    }
-    case F_GCD: {
-        if (!is_u && (A == lo<T>() || B == lo<T>())) { return SKIP; } // |m| or |n| not representable
-        auto const r = etl::gcd(a, b);
-        i128 const x = gcd128(A, B);
-        if (static_cast<i128>(r) != x || static_cast<i128>(std::gcd(a, b)) != x) { return fail(call2(), str(r), s128(x)); }
-        return OK;
-    }
-    case F_LCM: {
-        if (!is_u && (A == lo<T>() || B == lo<T>())) { return SKIP; }
-        using CT = std::common_type_t<T, T>;
-        i128 x   = 0;
-        if (!lcm_in<CT>(A, B, x)) { return SKIP; } // result not representable: undefined
-        auto const r = etl::lcm(a, b);
-        if (static_cast<i128>(r) != x || static_cast<i128>(std::lcm(a, b)) != x) { return fail(call2(), str(r), s128(x)); }
-        return OK;
-    }
-    case F_IDIV: {
+    case F_ADD_SAT:
+        if constexpr (requires { etl::add_sat(a, b); }) {
+            T const r = etl::add_sat(a, b);
+            T const x = clampT<T>(A + B);
+            if (r != x) { return fail(call2(), str(r), str(x)); }
+            return OK;
+        }
+        return SKIP;
+    case F_DIV_SAT:
+        if constexpr (requires { etl::div_sat(a, b); }) {
+            if (B == 0) { return SKIP; }
+            T const r = etl::div_sat(a, b);
+            T const x = clampT<T>(A / B);
+            if (r != x) { return fail(call2(), str(r), str(x)); }
+            return OK;
+        }
+        return SKIP;
+    case F_MIDPOINT:
+        // (etl::midpoint accepts char, charN_t and wchar_t by its constraint but its body needs etl::make_unsigned, which
+        // has no specialisation for them: a hard compile error, hence not part of the check)
+        if constexpr (std_int && requires { etl::midpoint(a, b); }) {
+            T const r = etl::midpoint(a, b);
+            i128 x    = A + (B - A) / 2; // half the difference, truncated: rounds towards a
+            if (static_cast<i128>(r) != x) { return fail(call2(), str(r), s128(x)); }
+            if constexpr (std_int) {
+                if (r != std::midpoint(a, b)) { return fail(call2(), str(r), s128(x)); }
+            }
+            return OK;
+        }
+        return SKIP;
+    case F_GCD:
+        if constexpr (std::is_integral_v<T> && !std::is_same_v<T, bool>) {
+            if (!is_u && (A == lo<T>() || B == lo<T>())) { return SKIP; } // |m| or |n| not representable
+            auto const r = etl::gcd(a, b);
+            i128 const x = gcd128(A, B);
+            if (static_cast<i128>(r) != x) { return fail(call2(), str(r), s128(x)); }
+            if constexpr (std_int) {
+                if (static_cast<i128>(std::gcd(a, b)) != x) { return fail(call2(), str(r), s128(x)); }
+            }
+            return OK;
+        }
+        return SKIP;
+    case F_LCM:
+        if constexpr (requires { etl::lcm(a, b); }) {
+            if (!is_u && (A == lo<T>() || B == lo<T>())) { return SKIP; }
+            using CT = std::common_type_t<T, T>;
+            i128 x   = 0;
+            if (!lcm_in<CT>(A, B, x)) { return SKIP; } // result not representable: undefined
+            auto const r = etl::lcm(a, b);
+            if (static_cast<i128>(r) != x) { return fail(call2(), str(r), s128(x)); }
+            if constexpr (std_int) {
+                if (static_cast<i128>(std::lcm(a, b)) != x) { return fail(call2(), str(r), s128(x)); }
+            }
+            return OK;
+        }
+        return SKIP;
+    case F_IDIV:
+        if constexpr (requires { etl::idiv(a, b); }) {
         if (B == 0 || !fits<T>(A / B)) { return SKIP; }
         auto const r = etl::idiv(a, b);
         if (static_cast<i128>(r.quot) != A / B || static_cast<i128>(r.rem) != A % B) { return fail(call2(), "{" + str(r.quot) + ", " + str(r.rem) + "}", "{" + s128(A / B) + ", " + s128(A % B) + "}"); }
         return OK;
-    }
-    case F_IPOW: {
+        }
+        return SKIP;
+    case F_IPOW:
+        if constexpr (requires { etl::ipow(a, b); }) {
         if (B < 0 || B > 255) { return SKIP; } // (linear loop: the exponent is bounded for run time only)
         i128 x = 1;
         for (i128 i = 0; i < B; ++i) {
@@ -458,7 +525,8 @@ auto check(Fn fn, T a, u64 braw) -> Res
         T const r = etl::ipow(a, b);
         if (static_cast<i128>(r) != x) { return fail(call2(), str(r), s128(x)); }
         return OK;
-    }
+        }
+        return SKIP;
     default: return SKIP;
     }
 }
@@ -555,7 +623,9 @@ inline auto run(Fn fn, T a, u64 braw, bool b_signed) -> Res
 {
     Case k{FN[fn], tname<T>(), std::is_signed_v<T> ? static_cast<u64>(static_cast<i64>(a)) : static_cast<u64>(a), braw, std::is_signed_v<T>, b_signed};
     vf::Flight<Case> fl(k.fn, k);
-    Res const r = check<T>(fn, a, braw);
+    T volatile va   = a; // run-time data: the call below is never a constant expression
+    u64 volatile vb = braw;
+    Res const r     = check<T>(fn, va, vb);
     if (r == FAIL) { report<T>(fn, k); }
     if (r == OK) { ++g_evals[fn]; }
     return r;
@@ -629,7 +699,9 @@ inline auto run_pair(Fn fn, T a, U b) -> Res
             }
         }
     }
-    Res const r = check2<T, U>(fn, a, b);
+    T volatile va = a;
+    U volatile vb = b;
+    Res const r   = check2<T, U>(fn, va, vb);
     if (r == FAIL) { report<T>(fn, k); }
     if (r == OK) {
         g_evals[fn] += fn == F_CMP ? 6 : 1;
@@ -677,6 +749,44 @@ auto boundary() -> std::vector<T> const&
     }();
     return v;
 }
+// boundary values plus bit patterns whose low / high halves are all-zero or all-one, shifted pairs of bits, and two
+// bits exactly 8 / 16 / 32 apart (truncated to the width of T); used for the unary functions, rotations, bit
+// positions and the template-index forms
+template <typename T>
+auto patterns() -> std::vector<T> const&
+{
+    static std::vector<T> const v = [] {
+        using UT = std::make_unsigned_t<T>;
+        std::vector<T> out = boundary<T>();
+        std::set<u64> seen;
+        for (T x : out) { seen.insert(ubits(x)); }
+        std::vector<u64> c;
+        for (int k = 0; k < 64; ++k) {
+            u64 const b = u64{1} << k;
+            c.push_back(u64{3} << k);
+            c.push_back(u64{5} << k);
+            c.push_back(u64{0xFF} << k);
+            for (int d : {8, 16, 32}) {
+                if (k + d < 64) { c.push_back(b | (u64{1} << (k + d))); }
+            }
+        }
+        for (u64 x : {0xFFFFFFFF00000000ULL, 0x00000000FFFFFFFFULL, 0x00FF00FF00FF00FFULL, 0xFF00FF00FF00FF00ULL, 0xFFFF0000FFFF0000ULL, 0x0000FFFF0000FFFFULL, 0x8000000080000000ULL, 0x0000000100000001ULL,
+                 0x0000000080000000ULL, 0x0000000100000000ULL, 0xFFFFFFFF80000000ULL, 0x7FFFFFFF00000000ULL, 0x0123456789ABCDEFULL, 0xFEDCBA9876543210ULL, 0xDEADBEEF00000000ULL, 0x00000000DEADBEEFULL,
+                 0x8000000000000001ULL, 0xF0F0F0F00F0F0F0FULL}) {
+            c.push_back(x);
+            c.push_back(~x);
+        }
+        constexpr u64 mask = sizeof(T) == 8 ? ~u64{0} : ((u64{1} << (sizeof(T) * 8 % 64)) - 1);
+        for (u64 x : c) {
+            if (seen.insert(x & mask).second) { out.push_back(static_cast<T>(static_cast<UT>(x & mask))); }
+        }
+        return out;
+    }();
+    return v;
+}
+template <typename T>
+inline constexpr bool bit_family_accepts = requires(T v) { etl::popcount(v); };
+
 // the smaller grid used as the second operand of the 2^16 x boundary sweep
 template <typename T>
 auto grid16() -> std::vector<T> const&
@@ -792,8 +902,9 @@ template <typename T>
 void wide(vf::Ctx& c, std::uint64_t& work)
 {
     auto const& v = boundary<T>();
+    auto const& w = patterns<T>();
     if (c.mine(work++)) {
-        for (T a : v) {
+        for (T a : w) {
             for (int f = UNARY_FIRST; f <= UNARY_LAST; ++f) { run_un<T>(static_cast<Fn>(f), a); }
         }
     }
@@ -803,9 +914,9 @@ void wide(vf::Ctx& c, std::uint64_t& work)
             for (T b : v) { run_bin<T>(static_cast<Fn>(f), a, b); }
         }
     }
-    if constexpr (std::is_unsigned_v<T>) {
+    if constexpr (std::is_unsigned_v<T> && bit_family_accepts<T>) {
         if (c.mine(work++)) {
-            for (T a : v) {
+            for (T a : w) {
                 for (int s = -130; s <= 130; ++s) {
                     run_rot<T>(F_ROTL, a, s);
                     run_rot<T>(F_ROTR, a, s);
@@ -885,31 +996,59 @@ void pairs_with_all(vf::Ctx& c, std::uint64_t& work)
     pairs<T, u64>(c, work);
 }
 
-// templated forms: set_bit<Pos>, reset_bit<Pos>, flip_bit<Pos>, test_bit<Pos>, ipow<Base>
+// templated forms: set_bit<Pos>, set_bit<Pos>(w, bool), reset_bit<Pos>, flip_bit<Pos>, test_bit<Pos>, ipow<Base>.
+// One case = one (word, Pos): the case is in flight before the first call, so a sanitizer report inside a form is
+// attributed to it, and it can be replayed ("bit_template u64 <word> <pos>").
 template <typename T, std::size_t Pos>
-auto bit_tpl_one(T a) -> bool
+auto bit_tpl_check(T a) -> Res
 {
     u64 const ua = ubits(a);
     u64 const m  = u64{1} << Pos;
-    return ubits(etl::set_bit<Pos>(a)) == (ua | m) && ubits(etl::set_bit<Pos>(a, true)) == (ua | m) && ubits(etl::set_bit<Pos>(a, false)) == (ua & ~m) && ubits(etl::reset_bit<Pos>(a)) == (ua & ~m)
-        && ubits(etl::flip_bit<Pos>(a)) == (ua ^ m) && etl::test_bit<Pos>(a) == ((ua & m) != 0);
+    auto bad     = [&](char const* form, std::string const& got, std::string const& want) {
+        g_detail = std::string("etl::") + form + " with Pos = " + std::to_string(Pos) + ", word = " + tname<T>() + " " + str(a) + ": got " + got + ", expected " + want;
+        return FAIL;
+    };
+    T const r1 = etl::set_bit<Pos>(a);
+    if (ubits(r1) != (ua | m)) { return bad("set_bit<Pos>(word)", str(r1), str(ua | m)); }
+    T const r2 = etl::set_bit<Pos>(a, true);
+    if (ubits(r2) != (ua | m)) { return bad("set_bit<Pos>(word, true)", str(r2), str(ua | m)); }
+    T const r3 = etl::set_bit<Pos>(a, false);
+    if (ubits(r3) != (ua & ~m)) { return bad("set_bit<Pos>(word, false)", str(r3), str(ua & ~m)); }
+    T const r4 = etl::reset_bit<Pos>(a);
+    if (ubits(r4) != (ua & ~m)) { return bad("reset_bit<Pos>(word)", str(r4), str(ua & ~m)); }
+    T const r5 = etl::flip_bit<Pos>(a);
+    if (ubits(r5) != (ua ^ m)) { return bad("flip_bit<Pos>(word)", str(r5), str(ua ^ m)); }
+    bool const r6 = etl::test_bit<Pos>(a);
+    if (r6 != ((ua & m) != 0)) { return bad("test_bit<Pos>(word)", str(r6), str((ua & m) != 0)); }
+    return OK;
 }
 template <typename T, std::size_t... Pos>
-void bit_tpl(vf::Ctx& c, std::uint64_t& work, std::index_sequence<Pos...>)
+constexpr auto bit_tpl_table(std::index_sequence<Pos...>) -> std::array<Res (*)(T), sizeof...(Pos)>
+{
+    return {&bit_tpl_check<T, Pos>...};
+}
+template <typename T>
+auto run_bit_tpl(T a, unsigned pos) -> Res
+{
+    static constexpr auto table = bit_tpl_table<T>(std::make_index_sequence<sizeof(T) * 8>{});
+    if (pos >= table.size()) { return SKIP; }
+    Case k{FN[F_BIT_TEMPLATE], tname<T>(), sx(a), pos, false, false};
+    vf::Flight<Case> fl(k.fn, k);
+    T volatile va = a;
+    Res const r   = table[pos](va);
+    if (r == FAIL) { report<T>(F_BIT_TEMPLATE, k); }
+    if (r == OK) {
+        g_evals[F_BIT_TEMPLATE] += 6;
+        if (pos == 0 || pos == table.size() - 1 || pos == 31 || pos == 32) { ++g_nt; }
+    }
+    return r;
+}
+template <typename T>
+void bit_tpl(vf::Ctx& c, std::uint64_t& work)
 {
     if (!c.mine(work++)) { return; }
-    for (T a : boundary<T>()) {
-        unsigned pos = 0;
-        bool ok      = true;
-        unsigned bad = 0;
-        ((ok = ok && (bit_tpl_one<T, Pos>(a) || ((bad = pos), false)), ++pos), ...);
-        Case k{FN[F_BIT_TEMPLATE], tname<T>(), sx(a), bad, false, false};
-        vf::Flight<Case> fl(k.fn, k);
-        if (!ok) {
-            vf::mismatch(k.fn, k, std::string("set_bit<P>/reset_bit<P>/flip_bit<P>/test_bit<P>(") + tname<T>() + " " + str(a) + ") with P = " + std::to_string(bad) + " differs from the mask definition");
-            return;
-        }
-        g_evals[F_BIT_TEMPLATE] += sizeof...(Pos) * 6;
+    for (T a : patterns<T>()) {
+        for (unsigned pos = 0; pos < sizeof(T) * 8; ++pos) { run_bit_tpl<T>(a, pos); }
     }
 }
 template <auto Base>
@@ -1081,52 +1220,164 @@ void sweep(vf::Rng& r, std::uint64_t n)
     }
 }
 
+// ------------------------------------------------------------------------------------------------ part 4: other types
+// every value of a narrow character type for the unary functions (in addition to wide<T>() on its boundary values)
+template <typename T>
+void all_values_unary(vf::Ctx& c, std::uint64_t& work)
+{
+    if constexpr (sizeof(T) <= 2) {
+        if (!c.mine(work++)) { return; }
+        using UT           = std::make_unsigned_t<T>;
+        unsigned const lim = sizeof(T) == 1 ? 256U : 65536U;
+        for (unsigned i = 0; i < lim; ++i) {
+            for (int f = UNARY_FIRST; f <= UNARY_LAST; ++f) { run_un<T>(static_cast<Fn>(f), static_cast<T>(static_cast<UT>(i))); }
+        }
+    }
+}
+void bool_byteswap(vf::Ctx& c, std::uint64_t& work)
+{
+    if (!c.mine(work++)) { return; }
+    for (int i = 0; i < 2; ++i) {
+        Case k{FN[F_BYTESWAP], "bool", static_cast<u64>(i), 0, false, false};
+        vf::Flight<Case> fl(k.fn, k);
+        bool volatile v = i != 0;
+        bool const r    = etl::byteswap(static_cast<bool>(v));
+        if (r != (i != 0)) {
+            vf::mismatch(k.fn, k, std::string("etl::byteswap(bool ") + (i ? "true" : "false") + ") is not the identity");
+            return;
+        }
+        ++g_evals[F_BYTESWAP];
+    }
+}
+template <typename T>
+void pairs_of_other_type(vf::Ctx& c, std::uint64_t& work)
+{
+    pairs_with_all<T>(c, work); // (T, each alias)
+    pairs<i8, T>(c, work);
+    pairs<u8, T>(c, work);
+    pairs<i16, T>(c, work);
+    pairs<u16, T>(c, work);
+    pairs<i32, T>(c, work);
+    pairs<u32, T>(c, work);
+    pairs<i64, T>(c, work);
+    pairs<u64, T>(c, work);
+}
+
 // ------------------------------------------------------------------------------------------------ replay dispatch
 template <typename T>
 auto replay_single(Fn fn, u64 a, u64 b) -> bool
 {
     using UT = std::make_unsigned_t<T>;
-    if (fn == F_BIT_TEMPLATE || fn == F_IPOW_TEMPLATE || fn == F_POPCOUNT_CONSTEXPR) { return false; }
+    if (fn == F_IPOW_TEMPLATE || fn == F_POPCOUNT_CONSTEXPR) { return false; }
+    if (fn == F_BIT_TEMPLATE) { return false; }
     Case k{FN[fn], tname<T>(), a, b, std::is_signed_v<T>, false};
     vf::Flight<Case> fl(k.fn, k);
-    Res const r = check<T>(fn, static_cast<T>(static_cast<UT>(a)), b);
+    T volatile va = static_cast<T>(static_cast<UT>(a));
+    u64 volatile vb = b;
+    Res const r = check<T>(fn, va, vb);
     if (r == FAIL) { g_replay_detail = g_detail; }
     return true;
 }
+template <typename T>
+inline constexpr bool is_alias_type_fwd = std::is_same_v<T, i8> || std::is_same_v<T, u8> || std::is_same_v<T, i16> || std::is_same_v<T, u16> || std::is_same_v<T, i32> || std::is_same_v<T, u32> || std::is_same_v<T, i64> || std::is_same_v<T, u64>;
 template <typename T, typename U>
 auto replay_pair2(Fn fn, u64 a, u64 b) -> bool
 {
     static std::string const ty = std::string(tname<T>()) + "," + tname<U>();
     Case k{FN[fn], ty.c_str(), a, b, std::is_signed_v<T>, std::is_signed_v<U>};
     vf::Flight<Case> fl(k.fn, k);
-    Res const r = check2<T, U>(fn, static_cast<T>(static_cast<std::make_unsigned_t<T>>(a)), static_cast<U>(static_cast<std::make_unsigned_t<U>>(b)));
+    T volatile va = static_cast<T>(static_cast<std::make_unsigned_t<T>>(a));
+    U volatile vb = static_cast<U>(static_cast<std::make_unsigned_t<U>>(b));
+    Res const r   = check2<T, U>(fn, va, vb);
     if (r == FAIL) { g_replay_detail = g_detail; }
     return true;
+}
+template <typename T, typename U>
+auto try_pair(Fn fn, std::string const& u, u64 a, u64 b, bool& result) -> bool
+{
+    // in the "types" harness a pair is replayable if one of its two types is a non-alias type
+    constexpr bool here = C14_PART != 4 || !is_alias_type_fwd<T> || !is_alias_type_fwd<U>;
+    if constexpr (here) {
+        if (u == tname<U>()) {
+            result = replay_pair2<T, U>(fn, a, b);
+            return true;
+        }
+    }
+    return false;
 }
 template <typename T>
 auto replay_pair1(Fn fn, std::string const& u, u64 a, u64 b) -> bool
 {
-    if (u == "i8") { return replay_pair2<T, i8>(fn, a, b); }
-    if (u == "u8") { return replay_pair2<T, u8>(fn, a, b); }
-    if (u == "i16") { return replay_pair2<T, i16>(fn, a, b); }
-    if (u == "u16") { return replay_pair2<T, u16>(fn, a, b); }
-    if (u == "i32") { return replay_pair2<T, i32>(fn, a, b); }
-    if (u == "u32") { return replay_pair2<T, u32>(fn, a, b); }
-    if (u == "i64") { return replay_pair2<T, i64>(fn, a, b); }
-    if (u == "u64") { return replay_pair2<T, u64>(fn, a, b); }
+    bool r = false;
+    if (try_pair<T, i8>(fn, u, a, b, r) || try_pair<T, u8>(fn, u, a, b, r) || try_pair<T, i16>(fn, u, a, b, r) || try_pair<T, u16>(fn, u, a, b, r) || try_pair<T, i32>(fn, u, a, b, r) || try_pair<T, u32>(fn, u, a, b, r)
+        || try_pair<T, i64>(fn, u, a, b, r) || try_pair<T, u64>(fn, u, a, b, r)) {
+        return r;
+    }
+#if C14_PART == 0 || C14_PART == 4
+    if (try_pair<T, ull>(fn, u, a, b, r) || try_pair<T, ll>(fn, u, a, b, r)) { return r; }
+#endif
     return false;
 }
-template <typename F>
+// Each harness binary only replays the cases it can produce itself (keeps every translation unit below ~1 GB of
+// compiler memory): narrow = single-type cases of the 8/16-bit aliases; wide = single-type cases of the 32/64-bit
+// aliases and the template-index forms; pairs = every pair of aliases; sweep = 32/64-bit aliases (pairs with a
+// 32/64-bit first type); types = the non-alias types and the pairs that involve one of them.
+template <typename T>
+inline constexpr bool is_alias_type = std::is_same_v<T, i8> || std::is_same_v<T, u8> || std::is_same_v<T, i16> || std::is_same_v<T, u16> || std::is_same_v<T, i32> || std::is_same_v<T, u32> || std::is_same_v<T, i64> || std::is_same_v<T, u64>;
+template <bool Pair, typename T>
+constexpr auto replay_here() -> bool
+{
+    constexpr bool alias = is_alias_type<T>;
+    constexpr bool ext   = std::is_same_v<T, ull> || std::is_same_v<T, ll>;
+    if (C14_PART == 0) { return true; }
+    if (C14_PART == 1) { return !Pair && alias && sizeof(T) <= 2; }
+    if (C14_PART == 2) { return !Pair && alias && sizeof(T) >= 4; }
+    if (C14_PART == 5) { return Pair && alias; }
+    if (C14_PART == 3) { return alias && sizeof(T) >= 4; }
+    if (C14_PART == 4) { return Pair ? (alias || ext) : !alias; }
+    return false;
+}
+template <bool Pair, typename T, typename F>
+auto try_type(std::string const& t, F& f, bool& result) -> bool
+{
+    if constexpr (replay_here<Pair, T>()) {
+        if (t == tname<T>()) {
+            result = f(T{});
+            return true;
+        }
+    }
+    return false;
+}
+template <bool Pair, typename F>
 auto with_type(std::string const& t, F&& f) -> bool
 {
-    if (t == "i8") { return f(i8{}); }
-    if (t == "u8") { return f(u8{}); }
-    if (t == "i16") { return f(i16{}); }
-    if (t == "u16") { return f(u16{}); }
-    if (t == "i32") { return f(i32{}); }
-    if (t == "u32") { return f(u32{}); }
-    if (t == "i64") { return f(i64{}); }
-    if (t == "u64") { return f(u64{}); }
+    bool r = false;
+    if (try_type<Pair, i8>(t, f, r) || try_type<Pair, u8>(t, f, r) || try_type<Pair, i16>(t, f, r) || try_type<Pair, u16>(t, f, r) || try_type<Pair, i32>(t, f, r) || try_type<Pair, u32>(t, f, r) || try_type<Pair, i64>(t, f, r)
+        || try_type<Pair, u64>(t, f, r)) {
+        return r;
+    }
+#if C14_PART == 0 || C14_PART == 4
+    if (try_type<Pair, ull>(t, f, r) || try_type<Pair, ll>(t, f, r)) { return r; }
+    if constexpr (!Pair) { // the two-type functions (cmp_*, in_range, saturate_cast) only accept the standard integer types
+        if (try_type<false, char>(t, f, r) || try_type<false, char8_t>(t, f, r) || try_type<false, char16_t>(t, f, r) || try_type<false, char32_t>(t, f, r) || try_type<false, wchar_t>(t, f, r)) { return r; }
+    }
+#endif
+    return false;
+}
+auto replay_bit_template(std::string const& t, u64 a, u64 b) -> bool
+{
+    (void)t;
+    (void)a;
+    (void)b;
+#if C14_PART == 0 || C14_PART == 2
+    if (t == "u8") { return run_bit_tpl<u8>(static_cast<u8>(a), static_cast<unsigned>(b)), true; }
+    if (t == "u16") { return run_bit_tpl<u16>(static_cast<u16>(a), static_cast<unsigned>(b)), true; }
+    if (t == "u32") { return run_bit_tpl<u32>(static_cast<u32>(a), static_cast<unsigned>(b)), true; }
+    if (t == "u64") { return run_bit_tpl<u64>(static_cast<u64>(a), static_cast<unsigned>(b)), true; }
+#endif
+#if C14_PART == 0 || C14_PART == 4
+    if (t == "ull") { return run_bit_tpl<ull>(static_cast<ull>(a), static_cast<unsigned>(b)), true; }
+#endif
     return false;
 }
 
@@ -1147,18 +1398,10 @@ void vf_run(vf::Ctx& c)
     wide<u32>(c, work);
     wide<i64>(c, work);
     wide<u64>(c, work);
-    pairs_with_all<i8>(c, work);
-    pairs_with_all<u8>(c, work);
-    pairs_with_all<i16>(c, work);
-    pairs_with_all<u16>(c, work);
-    pairs_with_all<i32>(c, work);
-    pairs_with_all<u32>(c, work);
-    pairs_with_all<i64>(c, work);
-    pairs_with_all<u64>(c, work);
-    bit_tpl<u8>(c, work, std::make_index_sequence<8>{});
-    bit_tpl<u16>(c, work, std::make_index_sequence<16>{});
-    bit_tpl<u32>(c, work, std::make_index_sequence<32>{});
-    bit_tpl<u64>(c, work, std::make_index_sequence<64>{});
+    bit_tpl<u8>(c, work);
+    bit_tpl<u16>(c, work);
+    bit_tpl<u32>(c, work);
+    bit_tpl<u64>(c, work);
     ipow_tpl<2>(c, work);
     ipow_tpl<3>(c, work);
     ipow_tpl<-2>(c, work);
@@ -1173,6 +1416,16 @@ void vf_run(vf::Ctx& c)
     ipow_tpl<u8{2}>(c, work);
     popcount_constexpr(c, work);
 #endif
+#if C14_PART == 0 || C14_PART == 5
+    pairs_with_all<i8>(c, work);
+    pairs_with_all<u8>(c, work);
+    pairs_with_all<i16>(c, work);
+    pairs_with_all<u16>(c, work);
+    pairs_with_all<i32>(c, work);
+    pairs_with_all<u32>(c, work);
+    pairs_with_all<i64>(c, work);
+    pairs_with_all<u64>(c, work);
+#endif
 #if C14_PART == 0 || C14_PART == 3
     {
         // 10^6 (quick) / 10^8 (thorough) random pairs in total over all shards and the four wide types
@@ -1184,6 +1437,37 @@ void vf_run(vf::Ctx& c)
         sweep<i64>(r, per);
         sweep<u64>(r, per);
         vf::count("sweep.random_pairs", per * 4);
+    }
+#endif
+#if C14_PART == 0 || C14_PART == 4
+    wide<ull>(c, work);
+    wide<ll>(c, work);
+    bit_tpl<ull>(c, work);
+    ipow_tpl<ull{2}>(c, work);
+    ipow_tpl<ull{10}>(c, work);
+    ipow_tpl<ll{2}>(c, work);
+    ipow_tpl<ll{-3}>(c, work);
+    pairs_of_other_type<ull>(c, work);
+    pairs_of_other_type<ll>(c, work);
+    pairs<ull, ll>(c, work);
+    pairs<ll, ull>(c, work);
+    pairs<ull, ull>(c, work);
+    pairs<ll, ll>(c, work);
+    wide<char>(c, work);
+    wide<char8_t>(c, work);
+    wide<char16_t>(c, work);
+    wide<char32_t>(c, work);
+    wide<wchar_t>(c, work);
+    all_values_unary<char>(c, work);
+    all_values_unary<char8_t>(c, work);
+    all_values_unary<char16_t>(c, work);
+    bool_byteswap(c, work);
+    {
+        std::uint64_t const per = (c.thorough() ? 4000000ULL : 100000ULL) / static_cast<std::uint64_t>(c.nshards) / 2;
+        vf::Rng r(c.seed ^ 0x5A5A5A5AULL);
+        sweep<ull>(r, per);
+        sweep<ll>(r, per);
+        vf::count("sweep.random_pairs", per * 2);
     }
 #endif
     flush_counters();
@@ -1206,7 +1490,13 @@ std::string vf_replay(std::string const& sub, std::string const& cs)
     auto& c       = vf::ctx();
     c.shard       = 0;
     c.nshards     = 1;
-    if (fn == F_BIT_TEMPLATE || fn == F_IPOW_TEMPLATE || fn == F_POPCOUNT_CONSTEXPR || t == "char") {
+    if (t == "bool") {
+        g_replay           = false;
+        std::uint64_t work = 0;
+        bool_byteswap(c, work);
+        return "";
+    }
+    if (fn == F_IPOW_TEMPLATE || fn == F_POPCOUNT_CONSTEXPR || (t == "char" && fn == F_HTON && C14_PART != 4)) {
         // small families: re-run them completely (a mismatch ends the process with the failing case)
         g_replay           = false;
         std::uint64_t work = 0;
@@ -1214,12 +1504,11 @@ std::string vf_replay(std::string const& sub, std::string const& cs)
             narrow_char(c, work);
         } else if (fn == F_POPCOUNT_CONSTEXPR) {
             popcount_constexpr(c, work);
-        } else if (fn == F_BIT_TEMPLATE) {
-            bit_tpl<u8>(c, work, std::make_index_sequence<8>{});
-            bit_tpl<u16>(c, work, std::make_index_sequence<16>{});
-            bit_tpl<u32>(c, work, std::make_index_sequence<32>{});
-            bit_tpl<u64>(c, work, std::make_index_sequence<64>{});
         } else {
+            ipow_tpl<ull{2}>(c, work);
+            ipow_tpl<ull{10}>(c, work);
+            ipow_tpl<ll{2}>(c, work);
+            ipow_tpl<ll{-3}>(c, work);
             ipow_tpl<2>(c, work);
             ipow_tpl<3>(c, work);
             ipow_tpl<-2>(c, work);
@@ -1237,11 +1526,13 @@ std::string vf_replay(std::string const& sub, std::string const& cs)
     }
     auto const comma = t.find(',');
     bool known       = false;
-    if (comma == std::string::npos) {
-        known = with_type(t, [&](auto tag) { return replay_single<decltype(tag)>(static_cast<Fn>(fn), a, b); });
+    if (fn == F_BIT_TEMPLATE) {
+        known = replay_bit_template(t, a, b);
+    } else if (comma == std::string::npos) {
+        known = with_type<false>(t, [&](auto tag) { return replay_single<decltype(tag)>(static_cast<Fn>(fn), a, b); });
     } else {
         std::string const t1 = t.substr(0, comma), t2 = t.substr(comma + 1);
-        known = with_type(t1, [&](auto tag) { return replay_pair1<decltype(tag)>(static_cast<Fn>(fn), t2, a, b); });
+        known = with_type<true>(t1, [&](auto tag) { return replay_pair1<decltype(tag)>(static_cast<Fn>(fn), t2, a, b); });
     }
     if (!known) { return "unknown type in case string"; }
     return g_replay_detail;
